@@ -225,6 +225,11 @@ func (c *LRUCache) Set(key string, value interface{}, ttl time.Duration) error {
 		c.currentSize -= oldEntry.Size
 		c.currentSize += size
 		elem.Value = entry
+		// The updated entry is at the front; evict from the back until the
+		// size limit holds again.
+		for c.maxSize > 0 && c.currentSize > c.maxSize {
+			c.evictOldest()
+		}
 		atomic.AddUint64(&c.stats.Sets, 1)
 		verifEvent("Set", c, key, value, ttl, false)
 		return nil
@@ -286,6 +291,9 @@ func (c *LRUCache) SetWithTags(key string, value interface{}, ttl time.Duration,
 		c.currentSize -= oldEntry.Size
 		c.currentSize += size
 		elem.Value = entry
+		for c.maxSize > 0 && c.currentSize > c.maxSize {
+			c.evictOldest()
+		}
 		verifEvent("SetTags", c, key, value, ttl, tags, false)
 		return nil
 	}
